@@ -212,7 +212,7 @@ pub fn gen_name(t: &mut Tape, odd: bool) -> String {
 pub const TEXT_CHARS: &[(u32, &str)] = &[
     (30, "a"), (8, "b"), (6, "1"), (6, " "), (4, ","), (3, ":"), (3, "#"), (3, "-"), (2, "."), (2, ";"), (2, "="), (2, "("), (2, ")"),
     (2, "["), (2, "]"), (2, "<"), (2, ">"), (1, "{"), (1, "}"), (1, "$"), (1, "@"), (1, "!"), (1, "|"), (1, "~"), (1, "+"), (1, "/"),
-    (1, "\\"), (1, "*"), (1, "?"), (1, "\""), (1, "'"), (2, "\t"), (3, "é"), (2, "€"), (2, "𝄞"), (1, "\u{a0}"), (1, "\u{2028}"), (1, "\u{85}"),
+    (1, "\\"), (1, "*"), (1, "?"), (1, "\""), (1, "'"), (2, "\t"), (3, "é"), (2, "€"), (2, "𝄞"), (1, "\u{a0}"), (1, "\u{2028}"), (1, "\u{85}"), (1, "\u{feff}"),
 ];
 
 /// A value line: non-empty unless `allow_empty`; first char not space/tab (and not '#' for
